@@ -37,18 +37,19 @@ from vp.gen import modeldb as G
 PROP = "C16"
 LEVEL = "exploration"
 RULE = (
-    "crash cases (the first block of indices): a random workload = open context + 2..4 operations "
+    "crash cases (the first block of indices, 5 consecutive indices share one workload: exception / exit flavour "
+    "x first / second half of the k, torn flavour): a random workload = open context + 2..4 operations "
     "(store_model_entry / store_input / store_final / database store / log_* with hostile message / "
     "store_annotation / store_metadata / retrievals) over 2..3 small NONMEM models, model 1 sharing model 0's "
-    "dataset (same file or a copy with equal content), 40% with ModelfitResults; one flavour per case "
-    "(idx % 3: exception, exit, torn) and EVERY mutation event k of the workload enumerated inside the case "
+    "dataset (same file or a copy with equal content), 40% with ModelfitResults; EVERY mutation event k of the "
+    "workload is a crash point of exactly one of its sub-cases in each flavour "
     "(torn: every truncating/appending open); restart oracle evaluated once per distinct (directory tree, "
     "returned operations, in-flight operation). stratum 'restore' (20%) stores one model a second time under "
     "another name. fidelity cases: workloads of up to 14 operations, models from the NM-TRAN grammar generator "
     "(50%) or the small templates, 6..20 hostile log messages; strata A 51% / every log message number-like / NA-like log message / newline in "
     "annotation / name with blank / name with comma or quote / name stored twice / same data other datainfo "
     "7% each. concurrency cases: 2-3 processes x 4-6 operations on 2-3 models. distinct = fingerprint of the "
-    "workload spec; non-trivial = crash: all crash points enumerated and >= 20 of them and >= 2 models; "
+    "workload spec; non-trivial = crash: all crash points of the sub-case enumerated and >= 10 of them (torn: >= 4) and >= 2 models; "
     "fidelity: >= 1 store and >= 3 log rows judged; concurrency: >= 2 processes finished and >= 1 retrieval "
     "returned an entry"
 )
@@ -90,7 +91,9 @@ KEY_REBIND = "C16/name-rebind-keeps-first-key"
 KEY_DATAINFO = "C16/shared-data-other-datainfo-not-stored"
 
 FLAVOURS = ["exc", "exit", "torn"]
-LAYOUT = {"quick": (30, 24, 300), "thorough": (540, 300, 4500)}  # crash, concurrency, fidelity
+# one workload is shared by 5 consecutive case indices: (flavour, half of the k range); torn has few points, not split
+SUBCASES = [("exc", 0), ("exc", 1), ("exit", 0), ("exit", 1), ("torn", None)]
+LAYOUT = {"quick": (40, 24, 300), "thorough": (600, 300, 4500)}  # crash sub-cases (5 per workload), concurrency, fidelity
 SOFT_BUDGET_S = 62.0  # enumeration stops (counted as not_enumerated) before the farm's 90 s watchdog; no verdict
 BATCH_TIMEOUT = {"quick": 1800, "thorough": 8 * 3600}
 REFUSALS = ("KeyError", "FileNotFoundError", "PendingTransactionError")
@@ -759,7 +762,9 @@ def _only_annotation(vd):
         return True
     if vd.get("diffs"):
         return all(d.startswith("description ") for d in vd["diffs"])
-    if vd.get("exc") == "UnicodeDecodeError":  # the cut went through a multi-byte character of the annotations file
+    if vd.get("exc") in ("UnicodeDecodeError", "IndexError"):
+        # the cut went through a multi-byte character of the annotations file / left a line without the blank
+        # (these exception types are only accepted as annotation evidence at a crash point that tore that file)
         return True
     return vd.get("exc") == "KeyError" and "No annotation for" in vd["msg"]
 
@@ -771,7 +776,7 @@ def classify(vd, point):
     if point is not None:
         torn_rel = point.get("torn_rel")
         if point["flavour"] == "torn" and torn_rel == "ctx/annotations" and what in ("annot", "name", "poststore") and (
-                _only_annotation(vd) and (not vd.get("store_failed") or vd.get("exc") == "UnicodeDecodeError")):
+                _only_annotation(vd) and (not vd.get("store_failed") or vd.get("exc") in ("UnicodeDecodeError", "IndexError"))):
             # the annotations file is rewritten in place: a death inside that write loses the earlier lines, shows a
             # partial line as an annotation, and a line without terminator swallows the next annotation appended
             return KEY_ANNOT_ATOMIC, None
@@ -801,13 +806,13 @@ def classify_fidelity(vd, spec):
         return KEY_NA
     if what in ("log", "postlog") and vd.get("num_only"):
         return KEY_LOG_NUM
-    if st == "annot_nl" and what in ("annot", "name") and _only_annotation(vd):
+    if st == "annot_nl" and what in ("annot", "name") and _only_annotation(vd) and vd.get("exc") in (None, "KeyError"):
         t = vd.get("text")
         if what == "annot" and t is not None and ("\n" in t or "\r" in t):
             return KEY_ANNOT_NL
         if what == "name" and any("\n" in o.get("text", "") or "\r" in o.get("text", "") for o in spec["ops"] if o["op"] == "annot" and o["name"] == vd.get("name")):
             return KEY_ANNOT_NL
-    if st == "name_blank" and what in ("annot", "name") and _only_annotation(vd):
+    if st == "name_blank" and what in ("annot", "name") and _only_annotation(vd) and vd.get("exc") in (None, "KeyError"):
         blank = [m["name"] for m in spec["models"] if " " in m["name"]]
         n = vd.get("name")
         if n is not None and (" " in n or any(b.split(" ", 1)[0] == n for b in blank)):
@@ -834,22 +839,50 @@ def _rel_event(ev, keys, dhashes):
 
 
 # =============================================================================================== crash case
+def _workload_rng(rng, idx):
+    """The 5 sub-cases of one workload must draw the same workload, but the farm hands every case its own generator
+    seeded from (property, seed, idx) and not the seed.  The seed is recovered by comparing generator states (env
+    VERIF_SEED first, then 0..999); with it the group's generator is a function of (seed, first index of the group),
+    so a replay of a single sub-case reproduces.  If the seed cannot be recovered the sub-case falls back to a
+    workload of its own (still a valid case: its share of the crash points of that workload)."""
+    group = idx // len(SUBCASES)
+    st = rng.getstate()
+    cands = []
+    env = os.environ.get("VERIF_SEED", "")
+    if env.lstrip("-").isdigit():
+        cands.append(int(env))
+    import sys
+
+    for i, a in enumerate(sys.argv[:-1]):
+        if a == "--seed" and sys.argv[i + 1].lstrip("-").isdigit():
+            cands.append(int(sys.argv[i + 1]))
+    cands.extend(range(0, 1000))
+    for sd in cands:
+        if random.Random(f"{PROP}:{sd}:{idx}").getstate() == st:
+            return random.Random(f"{PROP}:{sd}:workload:{group}"), True
+    return rng, False
+
+
 def crash_case(rng, idx, base):
     from pharmpy.workflows.hashing import ModelHash
 
     t_begin = time.monotonic()
     c = Case()
-    flavour = FLAVOURS[idx % 3]
-    spec = G.gen_crash_workload(rng)
-    fracs_rng = random.Random(rng.random())
+    flavour, parity = SUBCASES[idx % len(SUBCASES)]
+    wrng, shared = _workload_rng(rng, idx)
+    spec = G.gen_crash_workload(wrng)
+    fracs_rng = random.Random(wrng.random())
+    if not shared:
+        c.hit("not_judged:seed-not-recovered-workload-not-shared")
     entries, models = G.build(spec, os.path.join(base, "src"))
     keys = [str(ModelHash(m)) for m in models]
     dhashes = sorted({ModelHash(m).dataset_hash for m in models})
     nops = len(spec["ops"])
-    c.sample = {"kind": "crash", "flavour": flavour, "stratum": spec["stratum"], "ops": spec["ops"],
+    c.sample = {"kind": "crash", "flavour": flavour, "k_half": parity, "workload_group": idx // len(SUBCASES),
+                "stratum": spec["stratum"], "ops": spec["ops"],
                 "models": [{k: v for k, v in m.items() if k not in ("results",)} | {"has_results": "results" in m} for m in spec["models"]],
                 "datasets": spec["datasets"]}
-    c.fp = fp_of("crash", flavour, spec["ops"], spec["models"], spec["datasets"])
+    c.fp = fp_of("crash", flavour, parity, spec["ops"], spec["models"], spec["datasets"])
 
     # -- fault-free run: numbers the events; its final state is judged as a fidelity workload
     root0 = os.path.join(base, "count")
@@ -881,14 +914,16 @@ def crash_case(rng, idx, base):
     if flavour == "torn":
         points = [e["n"] + 1 for e in events if e["tear"]]
     else:
-        points = list(range(1, N + 1))
+        allk = list(range(1, N + 1))  # contiguous halves: neighbouring no-op events keep sharing one oracle evaluation
+        points = allk[:N // 2] if parity == 0 else allk[N // 2:]
+    tear_fracs = {k: (0.0 if fracs_rng.random() < 0.35 else fracs_rng.random()) for k in range(1, N + 2)}
     seen = {}
     done = 0
     for k in points:
         if time.monotonic() - t_begin > SOFT_BUDGET_S:
             c.hit("not_enumerated:soft-time-budget", len(points) - done)
             break
-        frac = 0.0 if fracs_rng.random() < 0.35 else fracs_rng.random()
+        frac = tear_fracs[k]
         root = os.path.join(base, f"k{k}")
         status, out = crashfs.run_forked(lambda w: workload_child(w, spec, entries, models, root, flavour, k, frac))
         p = parse_progress(out)
@@ -946,7 +981,7 @@ def crash_case(rng, idx, base):
         shutil.rmtree(root, ignore_errors=True)
     else:
         c.hit("workloads_exhaustive")
-        c.nontrivial = len(points) >= (4 if flavour == "torn" else 20) and len(models) >= 2
+        c.nontrivial = len(points) >= (4 if flavour == "torn" else 10) and len(models) >= 2
     c.hit("distinct_crash_states", len(seen))
     c.sample["N"] = N
     c.sample["events"] = [_rel_event(e, keys, dhashes) + f" [op {e['op']}]" for e in events][:200]
@@ -1263,8 +1298,13 @@ def conc_case(rng, idx, base):
 def extra_coverage(recs, tier):
     inj = sum(r["counters"].get("crash_points_injected", 0) for r in recs)
     ev = sum(r["counters"].get("restart_oracle_evals", 0) for r in recs)
-    wl = sum(r["counters"].get("workloads", 0) for r in recs)
-    ex = sum(r["counters"].get("workloads_exhaustive", 0) for r in recs)
-    return {"crash": {"workload_flavour_pairs": wl, "exhaustively_enumerated": ex, "crash_points_injected": inj,
-                      "restart_oracle_evaluations": ev,
-                      "exhaustive_dimension": "crash point k within each (workload, flavour) pair"}}
+    ncrash = LAYOUT[tier][0]
+    groups = {}
+    for r in recs:
+        if r["idx"] < ncrash and not r.get("skipped"):
+            groups.setdefault(r["idx"] // len(SUBCASES), []).append(r["counters"].get("workloads_exhaustive", 0))
+    full = sum(1 for g in groups.values() if len(g) == len(SUBCASES) and all(g))
+    return {"crash": {"workloads": len(groups), "workloads_with_every_crash_point_in_every_flavour_enumerated": full,
+                      "subcases": sum(len(g) for g in groups.values()), "subcases_exhaustive": sum(sum(g) for g in groups.values()),
+                      "crash_points_injected": inj, "restart_oracle_evaluations": ev,
+                      "exhaustive_dimension": "crash point k within each workload, for each flavour"}}
